@@ -183,6 +183,16 @@ func nextAtomic(c *Ctx, rule string) {
 		}
 	}
 	c.Floor(rule+"/paths", n, 2)
+	// the bucket list and the pending delay are touched only under the queue mutex (construction in New excepted:
+	// the object is not yet shared)
+	fQ, fDur := P.Field("testing/fake/queue", "UpdateQueue", "q"), P.Field("testing/fake/queue", "UpdateQueue", "duration")
+	if fQ == nil || fDur == nil {
+		c.Unresolved(rule, "queue.UpdateQueue.q / duration")
+		return
+	}
+	la := NewLockAudit(c, "testing/fake/queue", map[*types.Var]*types.Var{fQ: fMu, fDur: fMu}, 2)
+	la.Report(func(kind string) string { return rule })
+	c.Check(la.Accesses >= 10, rule, "testing/fake/queue", "guarded accesses analysed", "", fmt.Sprintf("%d accesses of UpdateQueue.q / duration, %d directly under UpdateQueue.mu", la.Accesses, la.Guarded))
 }
 
 // configIntact (C20): what the fake target's sender writes into a response before sending it (the
@@ -326,28 +336,90 @@ func configIntact(c *Ctx, rule string) {
 			*out = append(*out, v)
 		}
 	}
-	n := 0
-	for _, g := range withAnon(f) {
-		instrs(g, func(in ssa.Instruction) {
-			st, ok := in.(*ssa.Store)
-			if !ok {
-				return
-			}
-			fa, ok := st.Addr.(*ssa.FieldAddr)
-			if !ok || !isMsg(fa.X.Type()) {
-				return
-			}
-			n++
-			var rs []ssa.Value
-			roots(fa.X, 0, &rs)
-			okAll, why := len(rs) > 0, ""
-			for _, r := range rs {
-				if ok, w := freshVal(r, 0); !ok {
-					okAll, why = false, w
+	// the sender and the unexported helpers of the package it hands the response to (the stamping split off
+	// into its own function): a helper's message parameter is judged by what its callers in this set pass
+	unit := []*ssa.Function{f}
+	inUnit := map[*ssa.Function]bool{f: true}
+	for i := 0; i < len(unit); i++ {
+		for _, g := range withAnon(unit[i]) {
+			for _, ci := range callsIn(g) {
+				cal := staticCallee(ci.Common())
+				if cal != nil && cal.Pkg == f.Pkg && len(cal.Blocks) > 0 && !inUnit[cal] && !isExportedFn(cal) {
+					takesMsg := false
+					for _, p := range cal.Params {
+						if isMsg(p.Type()) {
+							takesMsg = true
+						}
+					}
+					if takesMsg {
+						inUnit[cal] = true
+						unit = append(unit, cal)
+					}
 				}
 			}
-			c.Check(okAll, rule, fnName(f), "store into "+qualField(fa)+" goes into a message of the sender's own", P.Pos(st.Pos()), why)
-		})
+		}
+	}
+	var freshRoot func(r ssa.Value, d int) (bool, string)
+	freshRoot = func(r ssa.Value, d int) (bool, string) {
+		if pp, ok := r.(*ssa.Parameter); ok && d < 4 && inUnit[pp.Parent()] && pp.Parent() != f {
+			idx := -1
+			for i, q := range pp.Parent().Params {
+				if q == pp {
+					idx = i
+				}
+			}
+			sites := 0
+			for _, h := range unit {
+				for _, g := range withAnon(h) {
+					for _, ci := range callsIn(g) {
+						if staticCallee(ci.Common()) != pp.Parent() || idx < 0 || idx >= len(ci.Common().Args) {
+							continue
+						}
+						sites++
+						var rs []ssa.Value
+						roots(ci.Common().Args[idx], 0, &rs)
+						for _, rr := range rs {
+							if ok, w := freshRoot(rr, d+1); !ok {
+								return false, "caller " + fnName(g) + " passes " + w
+							}
+						}
+					}
+				}
+			}
+			if sites > 0 {
+				return true, ""
+			}
+		}
+		return freshVal(r, 0)
+	}
+	n := 0
+	for _, h := range unit {
+		for _, g := range withAnon(h) {
+			instrs(g, func(in ssa.Instruction) {
+				st, ok := in.(*ssa.Store)
+				if !ok {
+					return
+				}
+				fa, ok := st.Addr.(*ssa.FieldAddr)
+				if !ok || !isMsg(fa.X.Type()) {
+					return
+				}
+				// building a new literal is not a store into an existing message
+				if _, isAlloc := fa.X.(*ssa.Alloc); isAlloc {
+					return
+				}
+				n++
+				var rs []ssa.Value
+				roots(fa.X, 0, &rs)
+				okAll, why := len(rs) > 0, ""
+				for _, r := range rs {
+					if ok, w := freshRoot(r, 0); !ok {
+						okAll, why = false, w
+					}
+				}
+				c.Check(okAll, rule, fnName(g), "store into "+qualField(fa)+" goes into a message of the sender's own", P.Pos(st.Pos()), why)
+			})
+		}
 	}
 	c.Floor(rule+"/stores", n, 2)
 }
